@@ -16,7 +16,9 @@ def run(ctx):
                 "through the public vocabulary; hand-encoded banana token stream): the children of the `arguments` sequence are a "
                 "conforming list, one single-point mutation of it (subtree of another type, boundary size +-1, forged INT/LONGINT "
                 "tokens, short/long tuples, empty boolean/unicode sequences, dangling dict key, missing/extra/duplicate/unknown "
-                "argument, positional<->keyword moves, back-reference to an earlier argument of another shape), a unicode sequence whose "
+                "argument, positional<->keyword moves, back-reference to an earlier argument of another shape, and -- fixed family -- to an earlier CLOSED object of "
+                "the declared container kind but another arity / size / member type, in every kind of slot, as argument and inside an "
+                "answer), result constraints whose size parameter is ZERO (bare and inside every container kind), a unicode sequence whose "
                 "BODY is not UTF-8 (stray continuation byte, overlong, surrogate, > U+10FFFF, truncated, 0xFF) or non-ASCII text, in "
                 "every kind of slot as argument and as answer, a my-reference whose interface name / URL is such a byte string, or a hostile "
                 "FRAMING (count token larger / smaller than what follows, not an INT, missing; a value where a name is expected and "
@@ -258,6 +260,110 @@ def open_ref_sweep(ctx, S, E, runner, is_call):
 
 def has_pend(ws):
     return ws[0] == "wp" or (ws[0] == "wo" and any(has_pend(x) for x in ws[2]))
+
+
+# ------------------------------------------------------------------------------- back-references to a CLOSED object of the
+# right KIND but the wrong shape (what the token-level checks of the slot would have refused had it been sent in place)
+def ref_shape_table(S):
+    """(declared cs, [values of the declared container kind that violate it: arity / size / member type / member size],
+    a conforming value)"""
+    I = lambda n: ["i", n]
+    B = lambda *b: ["b", list(b)]
+    i1024, i32 = ["py", "int"], ["int", -1]
+    return [
+        (["tuple", [i1024, i1024]], [["T", [I(1)]], ["T", [I(1), I(2), I(3)]], ["T", []], ["T", [I(1), B(65)]]], ["T", [I(1), I(2)]]),
+        (["tuple", []], [["T", [I(1)]]], ["T", []]),
+        (["tuple", [i1024]], [["T", []], ["T", [I(1), I(2)]]], ["T", [I(1)]]),
+        (["pytuple", [i1024, ["py", "bytes"]]], [["T", [I(1)]], ["T", [I(1), B(65), B(65)]]], ["T", [I(1), B(65)]]),
+        (["tuple", [i32, i32]], [["T", [I(2 ** 40), I(1)]], ["T", [I(1)]]], ["T", [I(1), I(-2)]]),
+        (["tuple", [i1024, ["tuple", [i1024, i1024]]]], [["T", [I(1), ["T", [I(1)]]]], ["T", [I(1), ["T", [I(1), I(2), I(3)]]]]],
+         ["T", [I(1), ["T", [I(1), I(2)]]]]),
+        (["list", i1024, 2, 0], [["l", [I(1), I(2), I(3)]]], ["l", [I(1), I(2)]]),
+        (["list", i1024, None, 2], [["l", [I(1)]], ["l", []]], ["l", [I(1), I(2)]]),
+        (["list", ["bytes", 1, 0], None, 0], [["l", [B(65, 66)]]], ["l", [B(65)]]),
+        (["list", ["bytes", 0, 0], None, 0], [["l", [B(65)]]], ["l", [B()]]),
+        (["list", ["tuple", [i1024, i1024]], None, 0], [["l", [["T", [I(1)]]]], ["l", [["T", [I(1), I(2)]], ["T", [I(1), I(2), I(3)]]]]],
+         ["l", [["T", [I(1), I(2)]]]]),
+        (["dict", ["py", "bytes"], i1024, 1], [["d", [[B(65), I(1)], [B(66), I(2)]]]], ["d", [[B(65), I(1)]]]),
+        (["dict", ["py", "bytes"], ["tuple", [i1024, i1024]], None], [["d", [[B(65), ["T", [I(1)]]]]]], ["d", [[B(65), ["T", [I(1), I(2)]]]]]),
+        (["set", i1024, 1, True], [["s", [I(1), I(2)]]], ["s", [I(1)]]),
+    ]
+
+
+def ref_shape_calls(S, full=False):
+    """m(a, b): argument a arrives in full under a LAXER constraint (Any, or for tuples a TupleOf of the value's own arity),
+    then the slot declared `tight` -- b itself, a member of b (list / dict value / tuple member), b by keyword, b Optional --
+    holds OPEN reference <a>.  The referenced object is of the declared container kind but of another arity / size / member
+    type / member size (or conforming: must be delivered).  ReferenceUnslicer.receiveChild and the final checkAllArgs are the
+    only enforcement there is (no token of the object passes the slot's unslicer).  -> [(argspec, pos wires, kw wires)]"""
+    out = []
+    for tight, wrongs, good in ref_shape_table(S):
+        for n, vs in enumerate(wrongs + [good]):
+            first = S.slice_vs(vs)
+            ref = ["wr", vs, 0]
+            lax = [["any"]]
+            if vs[0] == "T" and vs is not good:
+                lax.append(["tuple", [["any"]] * len(vs[1])])
+            slots = [(tight, False, ref, False), (["list", tight, None, 0], False, ["wo", "list", [ref]], False),
+                     (["dict", ["py", "bytes"], tight, None], False, ["wo", "dict", [["ws", False, 1, [107]], ref]], False),
+                     (["tuple", [["py", "int"], tight]], False, ["wo", "tuple", [["wi", "INT", 1, 1], ref]], False),
+                     (tight, False, ref, True), (tight, True, ref, False)]
+            if n > 1 and vs is not good and not full:          # (quick tier: the bare slot and one rotating slot)
+                slots = [slots[0], slots[1 + n % 5]]
+            for j, (bcs, opt, bws, bykw) in enumerate(slots):
+                spec = [("a", lax[j % len(lax)], False), ("b", bcs, opt)]
+                out.append((spec, [first] if bykw else [first, bws], [["b", bws]] if bykw else []))
+    return out
+
+
+def ref_shape_answers(S):
+    """the same as RESULT: TupleOf(Any, tight) / TupleOf(Any, ListOf(tight)) / TupleOf(Any, DictOf(bytes, tight)) whose
+    second member is (holds) a reference to the first, already closed, member.  -> [(cs, ws)]"""
+    out = []
+    for tight, wrongs, good in ref_shape_table(S):
+        for vs in wrongs + [good]:
+            first, ref = S.slice_vs(vs), ["wr", vs, ["sib", 0]]
+            out.append((["tuple", [["any"], tight]], ["wo", "tuple", [first, ref]]))
+            if vs is wrongs[0] or vs is good:
+                out.append((["tuple", [["any"], ["list", tight, None, 0]]], ["wo", "tuple", [first, ["wo", "list", [["wr", vs, ["sib", 0, 1]]]]]]))
+    return out
+
+
+def has_ref(ws):
+    return ws[0] == "wr" or (ws[0] == "wo" and any(has_ref(x) for x in ws[2]))
+
+
+# ------------------------------------------------------------------------------- size parameters that are ZERO (not None)
+ZERO_LEAVES = [["bytes", 0, 0], ["text", 0, 0]]        # (IntegerConstraint asserts maxBytes >= 4)
+
+
+def zero_size_answers(S):
+    """a size parameter of 0 is a limit (only the empty string / the empty container conform), not `no
+    limit`: every leaf kind with its size at 0 -- inside ListOf / DictOf (key and value) / TupleOf / ChoiceOf / SetOf --
+    and every container kind with its own size at 0, against the smallest non-empty body, a large one and the empty one.
+    (The bare leaves go through hostile_sweep.)  -> [(cs, ws)]"""
+    s0, s1, s9 = ["ws", False, 0, []], ["ws", False, 1, [65]], ["ws", False, 300, [121] * 300]
+    U = lambda b: ["wo", "unicode", [b]]
+    toks = {"bytes": [s0, s1, s9], "text": [U(s0), U(s1), U(["ws", False, 7, [97] * 7])]}
+    key = ["ws", False, 1, [107]]
+    out = []
+    for z in ZERO_LEAVES:
+        for t in toks[z[0]]:
+            out.append((["list", z, None, 0], ["wo", "list", [t]]))
+            out.append((["list", z, 3, 0], ["wo", "list", [toks[z[0]][0], t]]))
+            out.append((["dict", ["py", "bytes"], z, None], ["wo", "dict", [key, t]]))
+            out.append((["dict", z, ["bytes", 5, 0], None], ["wo", "dict", [t, s1]]))
+            out.append((["tuple", [z, z]], ["wo", "tuple", [toks[z[0]][0], t]]))
+            if z[0] == "bytes":                      # (ChoiceOf over token-level alternatives)
+                out.append((["choice", [z, ["py", "int"]]], t))
+            out.append((["set", z, None, None], ["wo", "set", [t]]))
+    one = ["wi", "INT", 1, 1]
+    for cs, wss in [(["list", ["py", "int"], 0, 0], [["wo", "list", [one]], ["wo", "list", []]]),
+                    (["dict", ["py", "bytes"], ["py", "int"], 0], [["wo", "dict", [key, one]], ["wo", "dict", []]]),
+                    (["set", ["py", "int"], 0, None], [["wo", "set", [one]], ["wo", "immutable-set", [one]], ["wo", "set", []]]),
+                    (["list", ["list", ["py", "int"], 0, 0], None, 0], [["wo", "list", [["wo", "list", [one]]]]])]:
+        out += [(cs, ws) for ws in wss]
+    return out
 
 
 
@@ -1103,6 +1209,8 @@ def call_cases(ctx, S, E):
     for elem in PEND_ELEMS:
         cs, ws = pend_case(S, rng, elem, "list")
         recs.append(guarded(ctx, run_call, S, E, "pend-sweep", "pend", [("a", cs, False)], [ws], []))
+    for i, (argspec, pos, kws) in enumerate(ref_shape_calls(S, full=bool(ctx.n(0, 1)))):
+        recs.append(guarded(ctx, run_call, S, E, "ref-shape", "ref-shape", argspec, pos, kws, 0, i % 3 == 0, False))
     recs += remote_sweep(ctx, S, E)
     import random
     irng = random.Random(977 * ctx.seed + 2)          # its own stream: which generated calls address a derived interface
@@ -1243,11 +1351,11 @@ def run_answer(ctx, S, E, tag, family, cs, ws, vocab=0, via=None):
         rec["value"] = S.canon(out[1])
         # THE PROPERTY: the value handed to the callback satisfies the result constraint in force
         conforms = S.real_accepts(w.declared, out[1], True) and S.py_satisfies(cs, out[1])
-        if not conforms and has_pend(ws):
+        if not conforms and (has_pend(ws) or has_ref(ws)):
             # not D6: the stream is conforming except for ONE back-reference, and ReferenceUnslicer's checkObject is the
             # check that exists for exactly that
             ctx.fail("oracle/result-reference-unchecked", "an answer that puts a back-reference to its own still-open tuple "
-                     "into a slot of another declared shape was delivered: the callback received %r which violates the result "
+                     "(or to an earlier, closed member) into a slot of another declared shape was delivered: the callback received %r which violates the result "
                      "constraint %r (answer stream %s)" % (rec["value"], cs, str(ws)[:400]), replay=case)
         elif not conforms and S.py_recv(cs, ws) != "ok":
             # not D6 either: the documented TOKEN-level enforcement of this result constraint refuses this stream
@@ -1295,7 +1403,7 @@ def hostile_sweep(ctx, S, E):
     schema.NumberConstraint(); schema.IntegerConstraint(maxBytes=1024); schema.IntegerConstraint(maxBytes=None)
     schema.ByteStringConstraint(maxLength=2000); schema.UnicodeConstraint(maxLength=2000)
     recs = []
-    leaves = [l for l in S.LEAVES if l != ["any"]]
+    leaves = [l for l in S.LEAVES if l != ["any"]] + ZERO_LEAVES      # a size parameter of 0 is a limit, not "none"
     for leaf in leaves:
         for i, ws in enumerate(HOSTILE):         # the four public ways of putting a result constraint in force, in turn
             recs.append(guarded(ctx, run_answer, S, E, "hostile", "hostile", leaf, ws, 1, VIAS[i % 4]))
@@ -1324,6 +1432,10 @@ def answer_cases(ctx, S, E):
     recs += hostile_sweep(ctx, S, E)
     for i, (cs, ws) in enumerate(choice_container_answers(S)):
         recs.append(guarded(ctx, run_answer, S, E, "choice-container", "choice-container", cs, ws, 0, VIAS[i % 4]))
+    for i, (cs, ws) in enumerate(zero_size_answers(S)):
+        recs.append(guarded(ctx, run_answer, S, E, "zero-size", "zero-size", cs, ws, 0, VIAS[i % 4]))
+    for i, (cs, ws) in enumerate(ref_shape_answers(S)):
+        recs.append(guarded(ctx, run_answer, S, E, "ref-shape", "ref-shape", cs, ws, 0, VIAS[i % 4]))
     recs += open_ref_sweep(ctx, S, E, run_answer, False)
     for elem in PEND_ELEMS:                          # every OPEN-accepting constraint kind (and a few that refuse OPEN)
         for shape in ("list", "dict", "list2", "tuple-list", "tuple-list-inner"):
